@@ -230,7 +230,8 @@ static void dump_transitions(FILE *file, int state[])
 static int *epsclosure(int *t, int *ns_addr, int accset[], int *nacc_addr, int *hv_addr)
 {
 	int     stkpos, ns, tsp;
-	int     numstates = *ns_addr, nacc, hashval, transsym, nfaccnum;
+	int     numstates = *ns_addr, nacc, transsym, nfaccnum;
+	unsigned int hashval;	/* a sum that may wrap: keep it unsigned */
 	int     stkend, nstate;
 	static int did_stk_init = false, *stk;
 
@@ -333,7 +334,7 @@ ADD_STATE(state); \
 	}
 
 	*ns_addr = numstates;
-	*hv_addr = hashval;
+	*hv_addr = (int) hashval;
 	*nacc_addr = nacc;
 
 	return t;
